@@ -65,3 +65,259 @@ def build(tier):
                   {"rule": "R1", "before": "&mut latest_version (a local in the host)", "after": "latest_version (a &mut parameter)", "times": body.count("&mut latest_version")}]
     u.assumptions = ["RegContents/VRegDef/record_new_def are function-local items copied by hand into the environment; FxHashMap replaced by a 3-slot map"]
     return [u]
+
+
+# ======================================================================================================
+# U7.idx-inv: every arm of the per-op match as a transfer function -- the tracking invariant is preserved
+# ======================================================================================================
+from units.c07 import item, ifn, filter_enum, VO, VI, CC  # noqa: E402
+import re  # noqa: E402
+
+KEEP_INV = ["ADD", "ADDI", "MUL", "MOVI", "LW", "SW", "MOVE"]
+
+ENV_INV = r'''
+#![allow(unused, dead_code, non_snake_case, unreachable_patterns, clippy::all)]
+// ---------------- environment (hand-written shims, listed as assumptions) ----------------
+#[derive(Clone, Debug, PartialEq)] pub struct Span;
+impl Span { pub fn dummy() -> Span { Span } }
+#[derive(Debug)] pub enum CompileError { Immediate12TooLarge { val: u64, span: Span }, Immediate18TooLarge { val: u64, span: Span } }
+/// shim of VirtualRegister: three virtual registers named by a small integer
+#[derive(Hash, PartialEq, Eq, Debug, Clone)] pub enum VirtualRegister { Virtual(u8) }
+pub mod compiler_constants {
+    @CONST_EIGHTEEN_BITS@
+    @CONST_TWELVE_BITS@
+}
+/// shim of rustc_hash::FxHashMap: 3 slots (one per register of the harness), the API subset the pass uses
+pub struct FxHashMap<K, V> { pub slots: [Option<(K, V)>; 3] }
+pub struct EntryShim<'a, K, V> { map: &'a mut FxHashMap<K, V>, key: K }
+impl<K: PartialEq + Clone, V> FxHashMap<K, V> {
+    pub fn get(&self, k: &K) -> Option<&V> { for s in self.slots.iter() { if let Some((a, b)) = s { if a == k { return Some(b); } } } None }
+    pub fn get_mut(&mut self, k: &K) -> Option<&mut V> { for s in self.slots.iter_mut() { if let Some((a, b)) = s { if &*a == k { return Some(b); } } } None }
+    pub fn insert(&mut self, k: K, v: V) -> Option<V> {
+        for s in self.slots.iter_mut() { if matches!(s, Some((a, _)) if *a == k) { return s.replace((k, v)).map(|e| e.1); } }
+        for s in self.slots.iter_mut() { if s.is_none() { *s = Some((k, v)); return None; } }
+        unreachable!("map shim capacity exceeded")
+    }
+    pub fn remove(&mut self, k: &K) -> Option<V> { for s in self.slots.iter_mut() { if matches!(s, Some((a, _)) if a == k) { return s.take().map(|e| e.1); } } None }
+    pub fn entry(&mut self, key: K) -> EntryShim<'_, K, V> { EntryShim { map: self, key } }
+}
+impl<'a, K: PartialEq + Clone, V> EntryShim<'a, K, V> {
+    pub fn and_modify<F: FnOnce(&mut V)>(self, f: F) -> Self { if let Some(v) = self.map.get_mut(&self.key) { f(v); } self }
+    pub fn or_insert(self, default: V) -> &'a mut V {
+        if self.map.get(&self.key).is_none() { self.map.insert(self.key.clone(), default); }
+        self.map.get_mut(&self.key).unwrap()
+    }
+}
+// ---------------- extracted verbatim ----------------
+#[derive(Clone, Debug)]
+@VirtualImmediate12@
+impl VirtualImmediate12 {
+    @imm12_try_new@
+    @imm12_new@
+    @imm12_value@
+}
+#[derive(Clone, Debug)]
+@VirtualImmediate18@
+impl VirtualImmediate18 {
+    @imm18_value@
+}
+#[derive(Clone, Debug)]
+@VirtualOp@
+// items declared inside const_indexing_aggregates_function (in_fn item locator), verbatim
+@VRegDef@
+@RegContents@
+@record_new_def@
+@get_def_version@
+@process_add@
+/// R5 lifting + R8: the per-op `match op { .. }` of the retain_mut closure with the arms of the kept variants, verbatim;
+/// `retain` is the closure's local, returned
+pub fn step_arm(mut reg_contents: &mut FxHashMap<VirtualRegister, RegContents>, mut latest_version: &mut FxHashMap<VirtualRegister, u32>, op: &mut VirtualOp) -> bool {
+    let mut retain = true;
+    @MATCH@
+    retain
+}
+
+#[cfg(kani)]
+mod h {
+    use super::*;
+    type RC = FxHashMap<VirtualRegister, RegContents>;
+    type LV = FxHashMap<VirtualRegister, u32>;
+    fn ix(r: &VirtualRegister) -> usize { match r { VirtualRegister::Virtual(i) => *i as usize } }
+    fn reg(i: u8) -> VirtualRegister { VirtualRegister::Virtual(i) }
+    fn version(lv: &LV, r: &VirtualRegister) -> u32 { match lv.get(r) { Some(v) => *v, None => 0 } }
+    /// THE TRACKING INVARIANT: what the tables say about a register is true of the machine state `val`
+    ///  - Constant(c): the register holds c
+    ///  - BaseOffset(b@v, off): v is not from the future; and if b has not been redefined since (its version is still v), the register holds val[b] + off
+    fn inv(rc: &RC, lv: &LV, val: &[u64; 3]) -> bool {
+        let mut ok = true;
+        let mut r = 0u8;
+        while r < 3 {
+            match rc.get(&reg(r)) {
+                Some(RegContents::Constant(c)) => { ok = ok && val[r as usize] == *c; }
+                Some(RegContents::BaseOffset(b, off)) => {
+                    let cur = version(lv, &b.reg);
+                    ok = ok && b.ver <= cur;
+                    if b.ver == cur { ok = ok && (val[ix(&b.reg)] as u128 + *off as u128 == val[r as usize] as u128); }
+                }
+                None => {}
+            }
+            r += 1;
+        }
+        ok
+    }
+    fn any_reg() -> VirtualRegister { reg(kani::any::<u8>() % 3) }
+    fn any_tables() -> (RC, LV) {
+        let mut rc = RC { slots: [None, None, None] };
+        let mut lv = LV { slots: [None, None, None] };
+        let mut r = 0u8;
+        while r < 3 {
+            match kani::any::<u8>() % 3 {
+                0 => {}
+                1 => { rc.slots[r as usize] = Some((reg(r), RegContents::Constant(kani::any()))); }
+                _ => { rc.slots[r as usize] = Some((reg(r), RegContents::BaseOffset(VRegDef { reg: any_reg(), ver: kani::any::<u32>() % 8 }, kani::any()))); }
+            }
+            if kani::any() { lv.slots[r as usize] = Some((reg(r), kani::any::<u32>() % 8)); }
+            r += 1;
+        }
+        (rc, lv)
+    }
+    /// address of a word access `base + 8 * imm` (u128: no wrap)
+    fn word_addr(val: &[u64; 3], base: &VirtualRegister, imm: &VirtualImmediate12) -> u128 { val[ix(base)] as u128 + 8 * imm.value() as u128 }
+
+    fn check(mut op: VirtualOp) {
+        let (mut rc, mut lv) = any_tables();
+        let val: [u64; 3] = kani::any();
+        kani::assume(inv(&rc, &lv, &val));
+        let before = op.clone();
+        let retain = step_arm(&mut rc, &mut lv, &mut op);
+        // the instruction that will run (if any) must do what the original did, in the state `val`
+        let mut post = val;
+        match (&before, &op) {
+            (VirtualOp::ADD(d, a, b), VirtualOp::ADD(d2, a2, b2)) => {
+                assert!(retain && d == d2 && a == a2 && b == b2, "OB: an ADD is removed or rewritten");
+                let s = val[ix(a)] as u128 + val[ix(b)] as u128; kani::assume(s <= u64::MAX as u128);   // otherwise the VM panics: no successor state
+                post[ix(d)] = s as u64;
+            }
+            (VirtualOp::ADDI(d, a, i), VirtualOp::ADDI(d2, a2, i2)) => {
+                assert!(retain && d == d2 && a == a2 && i.value() == i2.value(), "OB: an ADDI is removed or rewritten");
+                let s = val[ix(a)] as u128 + i.value() as u128; kani::assume(s <= u64::MAX as u128);
+                post[ix(d)] = s as u64;
+            }
+            (VirtualOp::MUL(d, a, b), VirtualOp::MUL(d2, a2, b2)) => {
+                assert!(retain && d == d2 && a == a2 && b == b2, "OB: a MUL is removed or rewritten");
+                let s = (val[ix(a)] as u128) * (val[ix(b)] as u128); kani::assume(s <= u64::MAX as u128);
+                post[ix(d)] = s as u64;
+            }
+            (VirtualOp::MOVI(d, i), VirtualOp::MOVI(d2, i2)) => {
+                assert!(retain && d == d2 && i.value() == i2.value(), "OB: a MOVI is removed or rewritten");
+                post[ix(d)] = i.value() as u64;
+            }
+            (VirtualOp::LW(d, a, i), VirtualOp::LW(d2, a2, i2)) => {
+                assert!(retain && d == d2, "OB: a LW is removed or loads into another register");
+                assert!(word_addr(&val, a, i) == word_addr(&val, a2, i2), "OB: the rewritten LW reads a different address than the original");
+                post[ix(d)] = kani::any();   // whatever memory holds
+            }
+            (VirtualOp::SW(a, s, i), VirtualOp::SW(a2, s2, i2)) => {
+                assert!(retain && s == s2, "OB: a SW is removed or stores another register");
+                assert!(word_addr(&val, a, i) == word_addr(&val, a2, i2), "OB: the rewritten SW writes a different address than the original");
+            }
+            (VirtualOp::MOVE(d, s), VirtualOp::MOVE(d2, s2)) => {
+                assert!(d == d2 && s == s2, "OB: a MOVE is rewritten");
+                if retain { post[ix(d)] = val[ix(s)]; }
+                else { assert!(val[ix(d)] == val[ix(s)], "OB: a MOVE is removed although the destination does not already hold the source's value"); }
+            }
+            _ => assert!(false, "OB: the instruction is replaced by one of a different kind"),
+        }
+        assert!(inv(&rc, &lv, &post), "OB: after the step the tables claim something about a register that is not true of the machine state (stale constant / base / version)");
+        std::mem::forget((rc, lv, op, before));
+    }
+    @HARNESSES@
+}
+'''
+
+GEN = {
+    "ADD": "VirtualOp::ADD(any_reg(), any_reg(), any_reg())",
+    "ADDI": "VirtualOp::ADDI(any_reg(), any_reg(), VirtualImmediate12 { value: kani::any::<u16>() % 4096 })",
+    "MUL": "VirtualOp::MUL(any_reg(), any_reg(), any_reg())",
+    "MOVI": "VirtualOp::MOVI(any_reg(), VirtualImmediate18 { value: kani::any::<u32>() % (1 << 18) })",
+    "LW": "VirtualOp::LW(any_reg(), any_reg(), VirtualImmediate12 { value: kani::any::<u16>() % 4096 })",
+    "SW": "VirtualOp::SW(any_reg(), any_reg(), VirtualImmediate12 { value: kani::any::<u16>() % 4096 })",
+    "MOVE": "VirtualOp::MOVE(any_reg(), any_reg())",
+}
+
+
+def build_inv(tier):
+    def loc_item(kind, name):
+        return {"kind": "in_fn", "fn": HOST, "what": "item", "item": kind, "name": name}
+    specs = [
+        {"id": "m", "file": CF, "locator": {"kind": "in_fn", "fn": HOST, "what": "match", "scrutinee": "op", "nth": 0}},
+        {"id": "VRegDef", "file": CF, "locator": loc_item("struct", "VRegDef")},
+        {"id": "RegContents", "file": CF, "locator": loc_item("enum", "RegContents")},
+        {"id": "record_new_def", "file": CF, "locator": loc_item("fn", "record_new_def")},
+        {"id": "get_def_version", "file": CF, "locator": loc_item("fn", "get_def_version")},
+        {"id": "process_add", "file": CF, "locator": loc_item("fn", "process_add")},
+        {"id": "VirtualOp", "file": VO, "locator": item("enum", "VirtualOp")},
+        {"id": "VirtualImmediate12", "file": VI, "locator": item("struct", "VirtualImmediate12")},
+        {"id": "VirtualImmediate18", "file": VI, "locator": item("struct", "VirtualImmediate18")},
+        {"id": "imm12_try_new", "file": VI, "locator": ifn("VirtualImmediate12", "try_new", "-")},
+        {"id": "imm12_new", "file": VI, "locator": ifn("VirtualImmediate12", "new", "-")},
+        {"id": "imm12_value", "file": VI, "locator": ifn("VirtualImmediate12", "value", "-")},
+        {"id": "imm18_value", "file": VI, "locator": ifn("VirtualImmediate18", "value", "-")},
+        {"id": "CONST_EIGHTEEN_BITS", "file": CC, "locator": item("const", "EIGHTEEN_BITS")},
+        {"id": "CONST_TWELVE_BITS", "file": CC, "locator": item("const", "TWELVE_BITS")},
+    ]
+    fr = vf.extract(specs)
+    rewrites = []
+    rep = dict((k, v["text"]) for k, v in fr.items())
+    m = fr["m"]
+    have = {re.match(r"VirtualOp::(\w+)", a["pat"]).group(1) for a in m["arms"] if a["pat"].startswith("VirtualOp::")}
+    missing = [k for k in KEEP_INV if k not in have]
+    if missing:
+        raise vf.Undecided("const_indexing_aggregates_function: no arm for %s in the per-op match" % ", ".join(missing))
+    # R8: keep the arms of the modelled variants; the others (LoadDataId: needs the data section; `_`: BTreeSet of def registers) are dropped
+    pieces, last, body = [], 0, m["text"]
+    dropped = []
+    for arm in m["arms"]:
+        mm = re.match(r"VirtualOp::(\w+)", arm["pat"])
+        keep = bool(mm) and mm.group(1) in KEEP_INV
+        pieces.append(body[last:arm["start"]])
+        if keep:
+            pieces.append(body[arm["start"]:arm["end"]])
+            last = arm["end"]
+        else:
+            dropped.append(arm["pat"])
+            e = arm["end"]
+            cm = re.match(r"\s*,", body[e:])
+            last = e + (cm.end() if cm else 0)
+    pieces.append(body[last:])
+    rep["MATCH"] = "".join(pieces)
+    rewrites.append({"rule": "R8", "before": "per-op match with %d arms" % len(m["arms"]), "after": "arms kept: %s; dropped: %s" % (", ".join(KEEP_INV), ", ".join(dropped)), "times": 1})
+    rep["VirtualOp"] = filter_enum(rep["VirtualOp"], set(KEEP_INV), rewrites)
+    for k in ("VirtualOp", "VirtualImmediate12", "VirtualImmediate18"):
+        rep[k] = "pub " + re.sub(r"^pub(\([a-z]+\))?\s+", "", rep[k])
+    rep["VirtualImmediate12"] = rep["VirtualImmediate12"].replace("value: u16", "pub value: u16")
+    rep["VirtualImmediate18"] = rep["VirtualImmediate18"].replace("value: u32", "pub value: u32")
+    hs, obs = [], []
+    # MUL: 64x64->128 multiplication under SAT takes ~14 min (z3 crashes CBMC's SMT back end on this unit); thorough tier only.
+    # In the quick tier the MUL arm is covered by c07_constidx/mul_tracks_vm_result.
+    for k in [x for x in KEEP_INV if tier != "quick" or x != "MUL"]:
+        solver = ""
+        hs.append("#[kani::proof] #[kani::unwind(5)] %sfn arm_%s() { check(%s); }" % (solver, k.lower(), GEN[k]))
+        obs.append(vf.Ob("arm_%s" % k.lower(), "C07", panic_prop="C17",
+                         what="const_indexing_aggregates_function, %s arm as a transfer function: from every table/machine state satisfying the tracking invariant, the (possibly rewritten / removed) instruction does what the original did and the invariant holds afterwards; 3 registers, every register choice" % k))
+    src = ENV_INV
+    for k, v in rep.items():
+        if isinstance(v, str):
+            src = src.replace("@%s@" % k, v)
+    src = src.replace("@HARNESSES@", "\n    ".join(hs))
+    u = vf.KaniUnit("c07_constidx_inv", {"src/lib.rs": src}, obs, timeout_s=1200, jobs=7, auto_files=[CF, VI])
+    u.fragments = [vf.frag_record(fr[k]) for k in fr]
+    u.rewrites = rewrites + [{"rule": "R5", "before": "`match op {..}` inside the retain_mut closure", "after": "fn step_arm(reg_contents, latest_version, op) -> retain", "times": 1}]
+    u.assumptions = [
+        "the tracking invariant (fn inv) is mine: it is what makes the LW/SW rewrite and the MOVE removal sound; the pass states no invariant itself",
+        "FxHashMap replaced by a 3-slot map (get/insert/remove/entry.and_modify.or_insert); VirtualRegister reduced to three virtual registers; reserved registers, LoadDataId and the catch-all arm (def_registers: BTreeSet) are not modelled",
+        "the clearing of both tables at organizational ops (labels, jumps) is read, not contracted; ADD/ADDI/MUL successor states exist only when the VM does not panic on overflow",
+        "LW: the loaded value is arbitrary; memory itself is not modelled (only the address computation base + 8*imm)",
+    ]
+    u.heavy = True
+    return [u]
